@@ -18,6 +18,11 @@ CHECKS = [
      "design_ref": "DESIGN.md section 3 C08",
      "note": "Trusted: greenlet actors with private containers stand for processes (only the file system is shared); scheduling points are the interposed os-level calls on ref paths. Bounds: one contended ref + HEAD symref, <=3 actors, <=2 ops per actor, preemption bound 2 (quick) / 3 (thorough). One open known finding (pack_refs gathers values before taking packed-refs.lock), modelled as the named PackRead/PackWrite deviation in RefsLin.tla so that only histories explained exactly by it are suppressed. Reflog content not modelled.",
      "technique": "TLC model checking of RefsFiles.tla (refinement of an atomic ref) + systematic schedule exploration of the real code with TLC linearizability checking of recorded histories (RefsLin.tla) + TLC shape conformance (RefsFilesTrace.tla)"},
+    {"id": "C09",
+     "text": "Crash.tla states RecoveryInv (every ref old-or-new and parsable, closure of every ref readable, everything reachable before still readable, no half-written index/config/packed-refs visible) and the ordering obligations (object before ref, new copy before old copy removed, packed-refs before the superseded loose ref) over abstract repository states. Each of 15 repository-changing operations x starting layouts {loose, packed, mixed} x fsync {off,on} runs once on a real repository under os-level interposition; after EVERY mutating file-system call the directory is snapshotted (process-crash state; user-space buffers lost), with fsync on also as a power-loss variant (data not covered by an fsync dropped); every state is (a) projected and judged by TLC against Crash.tla and (b) materialised and put through the real recovery check (Repo opens, refs old-or-new, all closures and all listed objects re-hash, index/config parse). Additionally KeyboardInterrupt/EIO is injected at every call and the unwound directory checked. Abstract and real verdicts must agree (else drift).",
+     "design_ref": "DESIGN.md section 3 C09",
+     "note": "Trusted: the snapshot between two interposed calls is what a process crash leaves; power-loss model = per-file data as of its last fsync with directory operations durable in order (evaluated only with core.fsyncObjectFiles=true); hashlib/zlib and dulwich's Index/Config parsers classify files in the projection. Exhaustive over call boundaries per scenario in the thorough tier; quick covers every operation on two of the three layouts and every third exception point. receive-pack/fetch are covered through add_thin_pack/add_objects/ref updates, not end-to-end.",
+     "technique": "crash-point enumeration on the real code via interposition snapshots + TLC evaluation of Crash.tla (RecoveryInv, ordering obligations) on every recorded state sequence + real recovery check on every materialised crash state"},
 ]
 NOT_APPLICABLE = [
     {"property_id": "C01", "reason": "check under construction in this round (TLA+ module planned in DESIGN.md section 3); not claimed until its check is registered"},
@@ -26,7 +31,6 @@ NOT_APPLICABLE = [
     {"property_id": "C04", "reason": "check under construction in this round (TLA+ module planned in DESIGN.md section 3); not claimed until its check is registered"},
     {"property_id": "C05", "reason": "check under construction in this round (TLA+ module planned in DESIGN.md section 3); not claimed until its check is registered"},
     {"property_id": "C06", "reason": "check under construction in this round (TLA+ module planned in DESIGN.md section 3); not claimed until its check is registered"},
-    {"property_id": "C09", "reason": "check under construction in this round (TLA+ module planned in DESIGN.md section 3); not claimed until its check is registered"},
     {"property_id": "C10", "reason": "check under construction in this round (TLA+ module planned in DESIGN.md section 3); not claimed until its check is registered"},
     {"property_id": "C11", "reason": "check under construction in this round (TLA+ module planned in DESIGN.md section 3); not claimed until its check is registered"},
     {"property_id": "C12", "reason": "check under construction in this round (TLA+ module planned in DESIGN.md section 3); not claimed until its check is registered"},
